@@ -2,6 +2,8 @@ pub mod c01;
 pub mod c02;
 pub mod c03;
 pub mod c09;
+pub mod c10;
+pub mod c14;
 pub mod c18;
 pub mod c19;
 pub mod c20;
@@ -14,6 +16,8 @@ pub fn by_id(id: &str) -> Option<Box<dyn Prop>> {
         "C02" => Some(Box::new(c02::C02::default())),
         "C03" => Some(Box::new(c03::C03::default())),
         "C09" => Some(Box::new(c09::C09::default())),
+        "C10" => Some(Box::new(c10::C10::default())),
+        "C14" => Some(Box::new(c14::C14::default())),
         "C18" => Some(Box::new(c18::C18::default())),
         "C19" => Some(Box::new(c19::C19::default())),
         "C20" => Some(Box::new(c20::C20::default())),
